@@ -7,7 +7,7 @@
     [worker_pools s0] = the initial pools (they define which (resource, group, index) the worker owns:
     [in_universe]); [live_held live r g i] = fractions of index i (group g, resource r) held by the live
     allocations (a whole index counts FRACTIONS_PER_UNIT); [pools_free] = free fractions of that index. *)
-From HQ Require Import Base.Prelude Gen.Consts Alloc.Model Alloc.Spec Alloc.Lemmas Alloc.Group Alloc.Pool Alloc.Inv Alloc.System Alloc.Theorems Alloc.Examples.
+From HQ Require Import Base.Prelude Gen.Consts Alloc.Model Alloc.Spec Alloc.Lemmas Alloc.Group Alloc.Pool Alloc.Inv Alloc.System Alloc.Theorems Alloc.Mirror Alloc.MirrorSystem Alloc.Examples.
 Open Scope N_scope.
 
 (** No individual resource is ever held beyond 100 %, and nothing but the worker's own indices is held. *)
@@ -71,9 +71,35 @@ Theorem C04_release_no_panic : forall us l gs Hb,
   exists gs', release_indices_groups gs l = Ok gs' /\ GsI us gs' (hsum Hb) (hfany Hb) /\ length gs' = length gs.
 Proof. exact release_list. Qed.
 
-(** Exact amount (per resource): every accepted claim returns exactly the requested amount (the full size
-    for `all`), as whole indices followed by at most one fractional index whose parts add up to the amount. *)
-Theorem C04_exact_amount_partial : forall p p' rid rq ra,
+(** [valid_op]: the entries of a request have pairwise distinct resource ids (ResourceRequest::validate). *)
+
+(** Exact amount: every grant consists of exactly one resource allocation per entry of the request, each with
+    exactly the requested amount (the full size for `all`), whole indices followed by at most one fractional
+    index whose parts add up to the amount (no indices for a sum resource). *)
+Theorem C04_exact_amount : forall d s0 ops s rq w s' al,
+  init d = Ok s0 -> Forall valid_op ops -> run s0 ops = Ok s -> NoDup (map e_res rq) ->
+  step s (OAlloc rq w) = Ok (s', OutGrant al) ->
+  exact_amount_set_ok (worker_pools s0) rq al = true.
+Proof. exact exact_amount_thm. Qed.
+
+(** Concise mirror: in EVERY reachable state the admission summary (ConciseFreeResources) equals the summary
+    recomputed from the pools, modulo zero entries - the debug-only ResourceAllocator::validate() as a theorem,
+    through allocations AND releases, single-group and multi-group branches of concise.rs, sum resources. *)
+Theorem C04_concise_mirrors : forall d s0 ops s,
+  init d = Ok s0 -> Forall valid_op ops -> run s0 ops = Ok s ->
+  mirror_ok (a_pools (s_alloc s)) (a_free (s_alloc s)) = true.
+Proof. exact concise_mirrors_thm. Qed.
+
+(** ConciseFreeResources::add does not panic when a live allocation is released. *)
+Theorem C04_release_concise_no_panic : forall d s0 ops s k al pools',
+  init d = Ok s0 -> Forall valid_op ops -> run s0 ops = Ok s ->
+  nth_error (s_live s) (nat_of k) = Some al ->
+  release_helper (a_pools (s_alloc s)) al = Ok pools' ->
+  exists free', cf_add (a_free (s_alloc s)) al = Ok free'.
+Proof. exact release_concise_no_panic. Qed.
+
+(** per accepted claim: what the check [claim_ok] guarantees *)
+Theorem C04_claim_ok_sound : forall p p' rid rq ra,
   claim_ok p p' rid rq ra = true ->
   ra_res ra = rid /\ ra_amount ra = req_amount rq (pool_full_size p)
   /\ same_kind p p' = true /\ pool_full_size p' = pool_full_size p
@@ -85,21 +111,11 @@ Theorem C04_exact_amount_partial : forall p p' rid rq ra,
      end.
 Proof. exact claim_ok_inv. Qed.
 
-(** Concise mirror (the debug-only validate() as a theorem), per resource: if the admission summary mirrors
-    the pool, then after any accepted claim ConciseResourceState::remove does not panic and the summary
-    mirrors the pool again (all pool kinds; single-group and multi-group branches of concise.rs). *)
-Theorem C04_concise_mirrors_partial : forall p0 p c H taken p' rid rq ra,
-  PoolInv p0 p c H taken -> claim_ok p p' rid rq ra = true ->
-  exists c', cs_remove c ra = Ok c'
-             /\ PoolInv p0 p' c' (H ++ ra_indices ra) (taken + (if pool_is_sum p then ra_amount ra else 0)).
-Proof. exact claim_PoolInv. Qed.
-
-(** full statements of the two partial theorems (not proved at this strength) *)
-Definition C04_concise_mirrors_full : Prop := forall d s0 ops s,
-  init d = Ok s0 -> run s0 ops = Ok s -> mirror_ok (a_pools (s_alloc s)) (a_free (s_alloc s)) = true.
-Definition C04_exact_amount_full : Prop := forall d s0 ops s rq w s' al,
+(** clause of the property that is monitored on every run but not proved: `all` is granted only when
+    everything of the resource is free *)
+Definition C04_all_only_when_free_full : Prop := forall d s0 ops s rq w s' al,
   init d = Ok s0 -> run s0 ops = Ok s -> step s (OAlloc rq w) = Ok (s', OutGrant al) ->
-  exact_amount_ok (worker_pools s0) rq al = true /\ all_entries_free (a_pools (s_alloc s)) (worker_pools s0) rq = true.
+  all_entries_free (a_pools (s_alloc s)) (worker_pools s0) rq = true.
 
 (** non-vacuity: a concrete reachable state with three live allocations satisfying the hypotheses, on which
     the executable monitors (the same predicates, as booleans) evaluate to true *)
@@ -121,5 +137,7 @@ Print Assumptions C04_told_is_held.
 Print Assumptions C04_release_restores.
 Print Assumptions C04_release_all_restores_initial.
 Print Assumptions C04_release_no_panic.
-Print Assumptions C04_exact_amount_partial.
-Print Assumptions C04_concise_mirrors_partial.
+Print Assumptions C04_exact_amount.
+Print Assumptions C04_concise_mirrors.
+Print Assumptions C04_release_concise_no_panic.
+Print Assumptions C04_claim_ok_sound.
